@@ -2004,6 +2004,11 @@ impl Sim {
     // -- views -----------------------------------------------------------------------------
 
     pub fn client_view(&mut self, c: usize) -> ClientView {
+        if self.clients[c].panicked {
+            // a panic inside a `resource_scope` leaves the world without that resource; the
+            // execution already ended with a "panic" violation, later summaries see no state
+            return ClientView::default();
+        }
         let app = &mut self.clients[c].app;
         let map = app.world().resource::<ServerEntityMap>();
         let to_client: Vec<(Entity, Entity)> =
